@@ -451,6 +451,9 @@ func TestLiteralReevaluation(t *testing.T) {
 		func() *gen.Node { return gen.NList(gen.NMap(gen.NStr("k"), gen.NInt(1))) },
 		func() *gen.Node { return gen.NList() },
 		func() *gen.Node { return gen.NMap() },
+		// a decoded document is a fresh value on every call as well
+		func() *gen.Node { return gen.NCall("load_json", gen.NStr("[10, [20, 21], {\"k\": 1}]")) },
+		func() *gen.Node { return gen.NCall("load_json", gen.NStr("{\"k\": [1, 2], \"j\": \"s\"}")) },
 	}
 	// writes applicable to each literal (index path of the written element)
 	paths := [][][]*gen.Node{
@@ -462,6 +465,8 @@ func TestLiteralReevaluation(t *testing.T) {
 		{{gen.NInt(0), gen.NStr("k")}, {gen.NInt(0), gen.NStr("z")}},
 		{},
 		{{gen.NStr("z")}},
+		{{gen.NInt(0)}, {gen.NInt(1), gen.NInt(0)}, {gen.NInt(2), gen.NStr("k")}, {gen.NInt(2), gen.NStr("new")}},
+		{{gen.NStr("k"), gen.NInt(0)}, {gen.NStr("extra")}, {gen.NStr("j")}},
 	}
 	n := 0
 	for li, lit := range lits {
